@@ -40,7 +40,7 @@ Open(v, n, h, err) ==
     /\ rstate = "none"
     /\ v => ~err /\ h                            \* a canonical stream always opens
     /\ valid' = v /\ plen' = n /\ hdrOK' = h
-    /\ rstate' = IF err THEN "failed" ELSE "open" /\ pos' = 0 /\ zero' = 0
+    /\ rstate' = (IF err THEN "failed" ELSE "open") /\ pos' = 0 /\ zero' = 0
     /\ UNCHANGED <<wlen, wclosed>>
 
 (* k = buffer size, n = bytes returned, err \in {"nil","eof","other"}, match = the bytes are the next bytes of the plaintext *)
